@@ -181,6 +181,99 @@ Proof.
     rewrite Hg'. unfold gaps. rewrite Hds. symmetry. apply gaps_from_split.
 Qed.
 
+(* ------------------------------------------------------------------ inferred meanings are stable *)
+
+Lemma filter_all {A} (f : A -> bool) l : (forall x, In x l -> f x = true) -> filter f l = l.
+Proof.
+  induction l as [|x l IH]; intros H; cbn [filter]; [reflexivity|].
+  rewrite (H x (or_introl eq_refl)), IH; [reflexivity|]. intros y Hy. apply H. now right.
+Qed.
+
+Section Stable.
+Variable ph : str.
+Variable cands : list str.
+Hypothesis Hnph : ~ In ph cands.
+
+(* a side on which inference has nothing to do: not the placeholder, or no candidate *)
+Definition side_stable (acc : sem_account) (other : str) : Prop := fst acc = ph -> without other cands = [].
+Definition booking_stable (b : sem_booking) : Prop :=
+  side_stable (sb_credit b) (fst (sb_debit b)) /\ side_stable (sb_debit b) (fst (sb_credit b)).
+Definition directive_stable (d : sem_directive) : Prop :=
+  match d with SemTrx _ _ bs _ _ => Forall booking_stable bs | _ => True end.
+
+Lemma without_ph : without ph cands = cands.
+Proof.
+  unfold without. apply filter_all. intros x Hx. apply negb_true_iff. apply ne_str_eqb. intros ->. contradiction.
+Qed.
+
+(* whatever the repaired inference returns is stable: a placeholder it left has no candidate,
+   also with respect to the other side AS IT IS NOW *)
+Lemma booking_rel_stable b b' : booking_rel ph Fixed cands b b' -> booking_stable b'.
+Proof.
+  intros (_ & _ & Hcr & Hdb). split.
+  - intros Hph. destruct Hcr as [(Hne & Ec)|(Hc & [(x & Ec & Hx & _)|(Hw & Ec)])].
+    + rewrite Ec in Hph. contradiction.
+    + rewrite Ec in Hph. cbn [fst] in Hph. subst x. contradiction.
+    + rewrite Ec in Hdb. destruct Hdb as [(_ & Ed)|(Hd & [(y & Ed & Hy & _)|(_ & Ed)])].
+      * rewrite Ed. exact Hw.
+      * rewrite Hd, without_ph in Hw. rewrite Hw in Hy. destruct Hy.
+      * rewrite Ed. exact Hw.
+  - intros Hph. destruct Hdb as [(Hne & Ed)|(Hd & [(y & Ed & Hy & _)|(Hw & Ed)])].
+    + rewrite Ed in Hph. contradiction.
+    + rewrite Ed in Hph. cbn [fst] in Hph. subst y. contradiction.
+    + exact Hw.
+Qed.
+
+Lemma directive_rel_stable d d' : directive_rel ph Fixed cands d d' -> directive_stable d'.
+Proof.
+  destruct d as [date desc bs p a| | | | | |]; cbn [directive_rel]; try (intros ->; exact I).
+  destruct d' as [date' desc' bs' p' a'| | | | | |]; try contradiction.
+  intros (_ & _ & _ & _ & Hb). cbn [directive_stable].
+  induction Hb as [|b b' bs bs' Hbb _ IH]; constructor; [eapply booking_rel_stable; eassumption|assumption].
+Qed.
+
+Lemma directives_rel_stable ds ds' : Forall2 (directive_rel ph Fixed cands) ds ds' -> Forall directive_stable ds'.
+Proof. induction 1; constructor; [eapply directive_rel_stable; eassumption|assumption]. Qed.
+
+(* inference leaves stable meanings as they are, for every valid choice function *)
+Variable choose : nat -> list str -> option str.
+Hypothesis Hch : valid_choose choose.
+
+Lemma infer_side_stable k acc other : side_stable acc other ->
+  exists k', infer_side ph Fixed choose cands k acc other = (acc, k').
+Proof.
+  unfold side_stable, infer_side. intros H. destruct (str_eqb (fst acc) ph) eqn:E; [|eauto].
+  apply str_eqb_true in E. rewrite (H E). destruct (choose k []) as [x|] eqn:Hc; [|eauto].
+  apply (proj1 Hch) in Hc. destruct Hc.
+Qed.
+
+Lemma infer_booking_stable k b : booking_stable b -> exists k', infer_booking ph Fixed choose cands k b = (b, k').
+Proof.
+  intros (Hc & Hd). unfold infer_booking.
+  destruct (infer_side_stable k _ _ Hc) as (k1 & ->). cbv beta iota. cbn [fst].
+  destruct (infer_side_stable k1 _ _ Hd) as (k2 & ->). exists k2. destruct b; reflexivity.
+Qed.
+
+Lemma infer_bookings_stable : forall bs k, Forall booking_stable bs ->
+  exists k', infer_bookings ph Fixed choose cands k bs = (bs, k').
+Proof.
+  induction bs as [|b bs IH]; intros k H; cbn [infer_bookings]; [eauto|].
+  inversion H as [|? ? Hb Hr]; subst. destruct (infer_booking_stable k b Hb) as (k1 & ->).
+  destruct (IH k1 Hr) as (k2 & ->). eauto.
+Qed.
+
+Lemma infer_sems_stable : forall ds k, Forall directive_stable ds ->
+  exists k', infer_sems ph Fixed choose cands k ds = (ds, k').
+Proof.
+  induction ds as [|d ds IH]; intros k H; cbn [infer_sems]; [eauto|].
+  inversion H as [|? ? Hd Hr]; subst.
+  destruct d as [date desc bs p a| | | | | |]; try (destruct (IH k Hr) as (k2 & ->); eauto).
+  cbn [directive_stable] in Hd. destruct (infer_bookings_stable bs k Hd) as (k1 & ->).
+  destruct (IH k1 Hr) as (k2 & ->). eauto.
+Qed.
+
+End Stable.
+
 (* ------------------------------------------------------------------ the command *)
 
 Section Command.
@@ -204,7 +297,7 @@ Qed.
 
 (* the round trip: the printed text parses; its meaning is the inferred meaning of the target
    (related to the target's by directive_rel: only placeholder sides substituted), its gaps are
-   the target's gaps *)
+   the target's gaps; and it is in formatted form (formatting it changes nothing) *)
 Theorem infer_roundtrip choose training target out :
   valid_choose choose ->
   infer_with ph Fixed letter digit choose training target = InferOut out ->
@@ -212,12 +305,15 @@ Theorem infer_roundtrip choose training target out :
     parse_text letter digit training = ParseOk ftr /\ parse_text letter digit target = ParseOk ftg /\
     parse_text letter digit out = ParseOk f' /\
     infer_sems ph Fixed choose (candidates ph (sem training ftr)) 0%nat (sem target ftg) = (sem out f', k) /\
-    gaps out f' = gaps target ftg.
+    gaps out f' = gaps target ftg /\
+    format_text letter digit out f' = FOk out.
 Proof.
   intros Hch H. destruct (infer_with_shape _ _ _ _ _ _ _ _ H) as (ftr & ftg & sems & k & Htr & Htg & Hs & Hr).
   destruct (inferred_lex choose training ftr target ftg _ sems k Hch Htr Htg Hs) as (Hlex & Hlen).
   destruct (parse_rendered letter digit target ftg sems out Hcls Htg Hlen Hlex Hr) as (f' & Hp' & Hs' & Hg').
-  exists ftr, ftg, f', k. rewrite Hs'. auto.
+  exists ftr, ftg, f', k. rewrite Hs'. repeat (split; [assumption|]).
+  destruct (format_parsed _ _ _ _ Hp') as (o' & Ho'). rewrite Ho'. f_equal.
+  pose proof (format_text_render _ _ _ _ _ Ho') as Hr'. rewrite Hs', Hg' in Hr'. congruence.
 Qed.
 
 Theorem infer_parses choose training target out :
@@ -239,6 +335,54 @@ Proof.
   destruct (infer_sems ph Fixed choose (candidates ph (sem training ftr)) 0%nat (sem target ftg)) as [sems k] eqn:Hs.
   destruct (inferred_lex choose training ftr target ftg _ sems k Hch Htr Htg Hs) as (Hlex & _).
   destruct (render_lex Utf8M.decode letter digit sems (gaps target ftg) Hlex) as (out & ->). eauto.
+Qed.
+
+(* idempotence: running the repaired infer on its own output, with the same training file and
+   ANY valid choice function, prints the same text again -- a placeholder the first run left
+   has no candidate in the second run either *)
+Theorem infer_idempotent choose choose' training target out :
+  valid_choose choose -> valid_choose choose' ->
+  infer_with ph Fixed letter digit choose training target = InferOut out ->
+  infer_with ph Fixed letter digit choose' training out = InferOut out.
+Proof.
+  intros Hch Hch' H.
+  destruct (infer_roundtrip choose training target out Hch H) as (ftr & ftg & f' & k & Htr & Htg & Hp' & Hs & Hg & Hf).
+  pose proof (infer_sems_rel ph Fixed choose Hch _ _ _ _ _ Hs) as Hrel.
+  pose proof (directives_rel_stable ph _ (candidates_not_ph ph (sem training ftr)) _ _ Hrel) as Hst.
+  destruct (infer_sems_stable ph _ choose' Hch' (sem out f') 0%nat Hst) as (k' & Hs').
+  unfold infer_with. rewrite Htr, Hp', Hs'. now rewrite (format_text_render _ _ _ _ _ Hf).
+Qed.
+
+(* "the result is, apart from those account names and the column alignment they imply,
+   identical to the formatted input", at full strength: on files that parse, the repaired
+   command prints a text [out], `knut format` prints a text [fmt] for the target; both parse, to
+   THE SAME GAPS (all text outside directives, byte for byte) and to meanings that are related
+   one by one by directive_rel (only placeholder sides differ); both are the rendering of their
+   meaning and these gaps by the same function, and both are in formatted form. *)
+Theorem infer_rest_is_format choose training target ftr ftg :
+  valid_choose choose ->
+  parse_text letter digit training = ParseOk ftr -> parse_text letter digit target = ParseOk ftg ->
+  exists out fmt f' ff,
+    infer_with ph Fixed letter digit choose training target = InferOut out /\
+    format_text letter digit target ftg = FOk fmt /\
+    parse_text letter digit out = ParseOk f' /\ parse_text letter digit fmt = ParseOk ff /\
+    sem fmt ff = sem target ftg /\
+    Forall2 (directive_rel ph Fixed (candidates ph (sem training ftr))) (sem target ftg) (sem out f') /\
+    gaps out f' = gaps target ftg /\ gaps fmt ff = gaps target ftg /\
+    render Utf8M.decode (sem out f') (gaps target ftg) = Some out /\
+    render Utf8M.decode (sem target ftg) (gaps target ftg) = Some fmt /\
+    format_text letter digit out f' = FOk out /\ format_text letter digit fmt ff = FOk fmt.
+Proof.
+  intros Hch Htr Htg. destruct (infer_total choose training target ftr ftg Hch Htr Htg) as (out & Ho).
+  destruct (format_parsed _ _ _ _ Htg) as (fmt & Hfmt).
+  destruct (infer_roundtrip choose training target out Hch Ho) as (ftr' & ftg' & f' & k & Htr' & Htg' & Hp' & Hs & Hg & Hf).
+  assert (ftr' = ftr) by congruence. assert (ftg' = ftg) by congruence. subst ftr' ftg'.
+  destruct (roundtrip letter digit target ftg fmt Hcls Htg Hfmt) as (ff & Hpf & Hsf & Hgf).
+  exists out, fmt, f', ff. repeat (split; [assumption|]).
+  split; [exact (infer_sems_rel ph Fixed choose Hch _ _ _ _ _ Hs)|]. split; [assumption|]. split; [assumption|].
+  split; [rewrite <- Hg; exact (format_text_render _ _ _ _ _ Hf)|].
+  split; [exact (format_text_render _ _ _ _ _ Hfmt)|]. split; [assumption|].
+  exact (idem_of_roundtrip letter digit target ftg fmt ff Htg Hfmt Hpf Hsf Hgf).
 Qed.
 
 End Command.
